@@ -171,6 +171,9 @@ func genShape(p *pkgInfo, out string) {
 	stp := squash(p.src(p.fn("kvElection.Stop").Body)) + " ### " + squash(p.src(p.fn("kvElection.StopWithContext").Body))
 	flag("startRefusedWhileWindingDown", "Start refuses while a helper goroutine of a stop call is still in wg.Wait (the goroutines of the run it ended have not all returned): the WaitGroup is not reused under a pending Wait; both stop calls count their helper under e.mu",
 		iWind >= 0 && iCtx > iWind && strings.Count(stp, "e.mu.Lock() e.windingDown++ e.mu.Unlock() go func() { e.wg.Wait() e.mu.Lock() e.windingDown-- e.mu.Unlock() close(done) }()") == 2)
+	sb := squash(p.src(p.fn("kvElection.Status").Body))
+	flag("statusUnderReadLock", "Status() assembles its snapshot under the election's read lock (transitions write isLeader, state, token and leader id inside one critical section)",
+		strings.HasPrefix(sb, "{ e.mu.RLock() defer e.mu.RUnlock()"))
 	flag("ctxCancelStepsDown", "Start spawns a goroutine that steps down when the run's context ends without a stop call",
 		strings.Contains(stt, "<-runCtx.Done()") && strings.Contains(stt, "byStop := e.stopped || e.ctx != runCtx") &&
 			strings.Contains(stt, "if !byStop { e.stepDown(\"context_cancelled\") }"))
